@@ -58,6 +58,28 @@ M = [
     ("c11-reject-writes-blank", "C11", "tm_algorithms.py", "        q, b, d = T.q_reject, a, Direction('R')", "        q, b, d = T.q_reject, T.blank, Direction('R')"),
     ("c11-budget-plus-one", "C11", "tm_algorithms.py", "    for _ in range(max_steps):\n        q, head = tm_do_transition(T, q, tape, head)\n        if q == q_accept:\n            return True", "    for _ in range(max_steps + 1):\n        q, head = tm_do_transition(T, q, tape, head)\n        if q == q_accept:\n            return True"),
     ("c11-trace-no-copy", "C11", "tm_algorithms.py", "        q, head = tm_do_transition(T, q, tape, head)\n        result.append((q, tape[:], head))", "        q, head = tm_do_transition(T, q, tape, head)\n        result.append((q, tape, head))"),
+    ("c15-nfa-find-transition-label", "C15", "nfa_algorithms.py", "            if src != p or a != a1:\n                continue\n            for q in Q1:\n                if q == target:\n                    return src", "            if src != p or a1 == N.epsilon:\n                continue\n            for q in Q1:\n                if q == target:\n                    return src"),
+    ("c15-dfa-append-before-step", "C15", "dfa_algorithms.py", "        q = delta[q, a]\n        result.append((q, word[k:]))", "        result.append((q, word[k:]))\n        q = delta[q, a]"),
+    ("c15-rightmost-first-index", "C15", "cfg_algorithms.py", "pos = first_index(element, A) if leftmost else last_index(element, A)", "pos = first_index(element, A)"),
+    ("c15-pda-find-transition-stack", "C15", "pda_algorithms.py", "if q == target.q and pda_can_pop_push(P, src.stack, u, v) and pda_pop_push(P, src.stack, u, v) == target.stack:", "if q == target.q and pda_can_pop_push(P, src.stack, u, v):"),
+    ("c15-nfa-backpointer-overwrite", "C15", "nfa_algorithms.py", "                if target not in visited:\n                    backpointers[target] = src\n                if target == f:", "                backpointers[target] = src\n                if target == f:"),
+    ("c02-dfa-range", "C02", "dfa_algorithms.py", "    W = {(D.q0, '')}\n    for i in range(n):", "    W = {(D.q0, '')}\n    for i in range(n - 1):"),
+    ("c02-dfa-no-empty-word", "C02", "dfa_algorithms.py", "    if D.q0 in D.F:\n        words.add('')\n    W = {(D.q0, '')}", "    W = {(D.q0, '')}"),
+    ("c02-regexp-concat-split", "C02", "regexp_algorithms.py", "regexp_words_up_to_n(r.right, n - k)) for k in range(n + 1)])", "regexp_words_up_to_n(r.right, n - k)) for k in range(n)])"),
+    ("c02-tm-range", "C02", "tm_algorithms.py", "    for i in range(n + 1):\n        for w in itertools.product(Sigma, repeat = i):", "    for i in range(n):\n        for w in itertools.product(Sigma, repeat = i):"),
+    ("c02-nfa-empty-word-final", "C02", "nfa_algorithms.py", "    if N.q0 in F1:\n        result.add('')", "    if N.q0 in N.F:\n        result.add('')"),
+    ("c02-pda-initial-closure", "C02", "pda_algorithms.py", "    R = {PDAState(P.q0, [])}\n    R = pda_epsilon_closure(P, R)\n    for r in R:\n        W[r] = {''}", "    R = {PDAState(P.q0, [])}\n    for r in R:\n        W[r] = {''}"),
+    ("c02-cfg-range", "C02", "cfg_algorithms.py", "    for i in range(2, n + 1):\n        W = remove_duplicates", "    for i in range(2, n):\n        W = remove_duplicates"),
+    ("c17-no-determinism-check", "C17", "dfa_algorithms.py", "            if (p, a) in V:\n                raise RuntimeError('the automaton is not deterministic in node {}'.format(p))", "            pass"),
+    ("c17-two-initial-ok", "C17", "automaton_algorithms.py", "        elif len(A.initial_states) > 1:\n            raise RuntimeError('the automaton has multiple initial states')", "        elif len(A.initial_states) > 2:\n            raise RuntimeError('the automaton has multiple initial states')"),
+    ("c17-no-duplicate-keys", "C17", "automaton_algorithms.py", "        if key in self.items:\n            raise RuntimeError('the keyword \"{}\" is specified multiple times'.format(key))", "        pass"),
+    ("c17-transition-two-words", "C17", "automaton_algorithms.py", "        if len(words) <= 2:\n            raise RuntimeError('incomplete transition", "        if len(words) <= 1:\n            raise RuntimeError('incomplete transition"),
+    ("c17-eps-default", "C17", "automaton_algorithms.py", "        for (p, a, q) in A.transitions:\n            if value in a:\n                return value\n        return default_value", "        return default_value"),
+    ("c17-nfa-last-wins", "C17", "nfa_algorithms.py", "            delta[p, a].add(q)\n        return NFA(Q, Sigma, delta, q0, F, epsilon)", "            delta[p, a] = {q}\n        return NFA(Q, Sigma, delta, q0, F, epsilon)"),
+    ("c16-print-pda-swap", "C16", "pda_algorithms.py", "transitions['{} {}'.format(p, q)].append('{},{}{}'.format(a, u, v))", "transitions['{} {}'.format(p, q)].append('{},{}{}'.format(a, v, u))"),
+    ("c16-print-tm-no-blank", "C16", "tm_algorithms.py", "    out.write('blank {}\\n'.format(blank))\n", ""),
+    ("c16-print-nfa-one-label", "C16", "nfa_algorithms.py", "            transitions['{} {}'.format(p, q)].append(a)\n    for pq in sorted(transitions.keys()):\n        out.write('{} {}\\n'.format(pq, ' '.join(transitions[pq])))\n    result = out.getvalue()\n    out.close()\n    return result\n\n\ndef automaton_to_nfa", "            transitions['{} {}'.format(p, q)].append(a)\n    for pq in sorted(transitions.keys()):\n        out.write('{} {}\\n'.format(pq, transitions[pq][0]))\n    result = out.getvalue()\n    out.close()\n    return result\n\n\ndef automaton_to_nfa"),
+    ("c16-simple-print-parens", "C16", "regexp.py", "        if n1:\n            x1 = '({})'.format(x1)\n        if n2:\n            x2 = '({})'.format(x2)\n        return '{}{}'.format(x1, x2)", "        if n1:\n            x1 = '({})'.format(x1)\n        return '{}{}'.format(x1, x2)"),
     ("c06-gnfa-overwrite", "C06", "regexp_algorithms.py", "            delta1[q, q1] = regexp.Sum(delta1[q, q1], regexp.Symbol(a))", "            delta1[q, q1] = regexp.Symbol(a)"),
 ]
 
